@@ -349,13 +349,14 @@ fn run_cfg(cfg: &Cfg, st: &mut Stats) -> Result<(), String> {
 /// any number of internal steps). kind 0: stop-the-world collect_debt, 1: stop-the-world cycle_debt,
 /// 2: default pacing collect_debt pays its debt, 3: default pacing, collect_debt after every burst of 1000.
 fn scale_case(kind: u8, n: usize) -> Result<(), String> {
-    let mut arena = Arena::<Rootable![Vec<Gc<'_, u64>>]>::new(|_| vec![]);
+    // (traceable nodes: they go through the gray queue; kind 4: one heap object with n traceable children)
+    let mut arena = Arena::<Rootable![Vec<Gc<'_, N<'_>>>]>::new(|_| vec![]);
     let m = arena.metrics().clone();
-    let fill = |arena: &mut Arena<Rootable![Vec<Gc<'_, u64>>]>, from: usize, to: usize| {
+    let fill = |arena: &mut Arena<Rootable![Vec<Gc<'_, N<'_>>>]>, from: usize, to: usize| {
         arena.mutate_root(|mc, root| {
             for i in from..to {
-                root.push(Gc::new(mc, i as u64));
-                Gc::new(mc, 0u64); // garbage
+                root.push(Gc::new(mc, N { next: Lock::new(None), _pad: i as u32 }));
+                Gc::new(mc, N { next: Lock::new(None), _pad: 0 }); // garbage
             }
         });
     };
@@ -375,7 +376,7 @@ fn scale_case(kind: u8, n: usize) -> Result<(), String> {
                 return Err(format!("stop-the-world pacing, {} allocations, positive debt: the call returned in phase {:?} with {} allocations left", 2 * n, arena.collection_phase(), m.total_gc_count()));
             }
             if m.total_gc_count() != n {
-                return Err(format!("stop-the-world cycle left {} allocations, {n} are reachable", m.total_gc_count()));
+                return Err(format!("stop-the-world cycle left {} allocations, {n} are reachable (all held directly by the root)", m.total_gc_count()));
             }
         }
         2 => {
@@ -385,7 +386,7 @@ fn scale_case(kind: u8, n: usize) -> Result<(), String> {
                 return Err(format!("collect_debt on a heap of {} allocations returned with debt {} (phase {:?})", 2 * n, m.allocation_debt(), arena.collection_phase()));
             }
         }
-        _ => {
+        3 => {
             let mut done = 0;
             while done < n {
                 fill(&mut arena, done, done + 1000);
@@ -395,7 +396,52 @@ fn scale_case(kind: u8, n: usize) -> Result<(), String> {
                     return Err(format!("collect_debt returned with debt {} after {} allocations (phase {:?})", m.allocation_debt(), 2 * done, arena.collection_phase()));
                 }
             }
+            arena.finish_cycle();
+            arena.finish_cycle();
+            if m.total_gc_count() != n {
+                return Err(format!("two finish_cycle calls left {} allocations, {n} are reachable", m.total_gc_count()));
+            }
         }
+        _ => {
+            // a chain of n nodes (deep) and a node whose children are reached through one object (wide):
+            // the root holds only the chain head; every node's `next` is the previous node
+            arena.mutate_root(|mc, root| {
+                let mut prev: Option<Gc<'_, N<'_>>> = None;
+                for i in 0..n {
+                    prev = Some(Gc::new(mc, N { next: Lock::new(prev), _pad: i as u32 }));
+                    Gc::new(mc, N { next: Lock::new(None), _pad: 0 });
+                }
+                root.push(prev.unwrap());
+            });
+            arena.finish_cycle();
+            arena.finish_cycle();
+            if m.total_gc_count() != n {
+                return Err(format!("two finish_cycle calls left {} allocations, a chain of {n} is reachable", m.total_gc_count()));
+            }
+        }
+    }
+    Ok(())
+}
+
+/// One heap object with n traceable children (wide): marking it must terminate and keep all of them.
+fn wide_case(n: usize) -> Result<(), String> {
+    let mut arena = Arena::<Rootable![Option<Gc<'_, Vec<Gc<'_, N<'_>>>>>]>::new(|_| None);
+    let m = arena.metrics().clone();
+    arena.mutate_root(|mc, root| {
+        let kids: Vec<Gc<'_, N<'_>>> = (0..n).map(|i| Gc::new(mc, N { next: Lock::new(None), _pad: i as u32 })).collect();
+        for _ in 0..n {
+            Gc::new(mc, N { next: Lock::new(None), _pad: 0 });
+        }
+        *root = Some(Gc::new(mc, kids));
+    });
+    arena.collect_debt();
+    if m.allocation_debt() != 0.0 {
+        return Err(format!("collect_debt returned with debt {}", m.allocation_debt()));
+    }
+    arena.finish_cycle();
+    arena.finish_cycle();
+    if m.total_gc_count() != n + 1 {
+        return Err(format!("two finish_cycle calls left {} allocations, a table with {n} children is reachable", m.total_gc_count()));
     }
     Ok(())
 }
@@ -475,9 +521,19 @@ fn switch_case(at: u8, call: u8) -> Result<(), String> {
     Ok(())
 }
 
+/// Only the scale / wide cases (also run as a stage of C01: "no reachable value is lost" on heaps far beyond the explorer's).
+pub fn run_scale(thorough: bool, only: Option<&str>) -> GridOut {
+    run_inner(thorough, only, true)
+}
 pub fn run(thorough: bool, only: Option<&str>) -> GridOut {
+    run_inner(thorough, only, false)
+}
+fn run_inner(thorough: bool, only: Option<&str>, scale_only: bool) -> GridOut {
     let mut cfgs: Vec<Cfg> = vec![];
     let mut scale: Vec<(String, u8, usize)> = vec![];
+    for &n in if thorough { &[5_000usize, 100_000][..] } else { &[5_000usize][..] } {
+        scale.push((format!("scale/wide/n{n}"), 90, n));
+    }
     for at in 0..5u8 {
         for call in 0..2u8 {
             // (kind >= 100 encodes a pacing-switch case)
@@ -485,11 +541,13 @@ pub fn run(thorough: bool, only: Option<&str>) -> GridOut {
         }
     }
     for &n in if thorough { &[100_000usize, 400_000][..] } else { &[100_000usize][..] } {
-        for kind in 0..4u8 {
+        for kind in 0..5u8 {
             scale.push((format!("scale/kind{kind}/n{n}"), kind, n));
         }
     }
-    if let Some(id) = only {
+    if scale_only {
+        scale.retain(|c| !c.0.starts_with("scale/switch") && only.map(|o| c.0 == o).unwrap_or(true));
+    } else if let Some(id) = only {
         if id.starts_with("scale/") {
             scale.retain(|c| c.0 == id);
         } else {
@@ -575,19 +633,19 @@ pub fn run(thorough: bool, only: Option<&str>) -> GridOut {
     let mut scale_viol: Vec<J> = vec![];
     for (si, (name, kind, n)) in scale.iter().enumerate() {
         watch.begin(nthreads, ncfg + si);
-        let r = std::panic::catch_unwind(|| if *kind >= 100 { switch_case((*kind - 100) / 2, (*kind - 100) % 2) } else { scale_case(*kind, *n) }).unwrap_or_else(|p| Err(format!("panic: {}", gcv::wops::panic_msg(&p))));
+        let r = std::panic::catch_unwind(|| if *kind >= 100 { switch_case((*kind - 100) / 2, (*kind - 100) % 2) } else if *kind == 90 { wide_case(*n) } else { scale_case(*kind, *n) }).unwrap_or_else(|p| Err(format!("panic: {}", gcv::wops::panic_msg(&p))));
         watch.end(nthreads);
         if let Err(e) = r {
             scale_viol.push(J::obj().with("case", name.as_str()).with("message", e.as_str()));
         }
     }
     let st = stats.into_inner().unwrap();
-    let nontrivial = cfgs.iter().filter(|c| !c.zero()).count() as u64;
+    let nontrivial = if scale_only { scale.len() as u64 } else { cfgs.iter().filter(|c| !c.zero()).count() as u64 };
     GridOut {
         evaluations: cfgs.len() as u64 + scale.len() as u64,
         nontrivial,
         rule: format!(
-            "full grid: pacing factors from the value set with the three documented path sums < 1 (incl. the all-zero stop-the-world row; plus Pacing::DEFAULT) x (sleep_factor, min_sleep) in {{(0,0),(0.5,4),(1,16),(2,1)}} x workloads {:?} x bursts x drivers {:?} x rounds; plus scale cases (heaps of 2 x 100 000 allocations, thorough also 2 x 400 000: stop-the-world collect_debt / cycle_debt end Sleeping with exactly the reachable half left, default-pacing collect_debt returns with zero debt, also after every burst of 2 000) and pacing-switch cases (stop-the-world pacing set while Sleeping / Marking / Marked / Sweeping x collect_debt / cycle_debt: the next call with positive debt ends Sleeping); non-trivial = configurations with non-zero work factors (incremental pacing)",
+            "full grid: pacing factors from the value set with the three documented path sums < 1 (incl. the all-zero stop-the-world row; plus Pacing::DEFAULT) x (sleep_factor, min_sleep) in {{(0,0),(0.5,4),(1,16),(2,1)}} x workloads {:?} x bursts x drivers {:?} x rounds; plus scale cases with traceable objects (all held directly by the root, a chain of 100 000, one table with 5 000 children; heaps of 2 x 100 000 allocations, thorough also 2 x 400 000: stop-the-world collect_debt / cycle_debt end Sleeping with exactly the reachable half left, default-pacing collect_debt returns with zero debt, also after every burst of 2 000) and pacing-switch cases (stop-the-world pacing set while Sleeping / Marking / Marked / Sweeping x collect_debt / cycle_debt: the next call with positive debt ends Sleeping); non-trivial = configurations with non-zero work factors (incremental pacing)",
             WORKLOADS, DRIVERS
         ),
         samples: cfgs.iter().step_by((cfgs.len() / 5).max(1)).take(5).map(|c| J::Str(c.id())).collect(),
